@@ -244,7 +244,7 @@ theorem LInv_closed : Closed LInv where
   invFlag := fun s b h => LInv_of_views h rfl rfl rfl
   erase := fun s i h hv he => LInv_erase h i hv he
   reap := fun s sid h _ _ => LInv_of_views h rfl rfl rfl
-  flagRemoval := fun s f g h => LInv_of_views h rfl rfl rfl
+  flagRemoval := fun _ s f g _ h _ _ => LInv_of_views h rfl rfl rfl
   flushSinks := fun s h => ⟨TCInv_closed.flushSinks s h.1, LA_of_lview h.2 (flushSinks_lview s)⟩
   readPrep := fun s i h => ⟨TCInv_closed.readPrep s i h.1, by
     unfold readPrepSt; exact h.2.setTh_keep i _ (fun _ => rfl) (fun _ => rfl)⟩
